@@ -13,7 +13,7 @@
     [cfg_fixed] is the behaviour after fixes/C13-*.patch; the theorems are about [cfg_fixed], the refutations
     about [cfg_found]. *)
 From Coq Require Import NArith List Bool Arith.
-From XV Require Import Base.XDefs Gen.GenKidOK C13.Ops13.
+From XV Require Import Base.XDefs Gen.GenKidOK Gen.GenC14IdMap C13.Ops13.
 Import ListNotations.
 
 (** DOMNode::NodeType numbers (regenerated from DOMNode.hpp) *)
@@ -30,13 +30,19 @@ Definition exc_code (e : exc) : N :=
   | INDEX_SIZE => gen_INDEX_SIZE_ERR | HIERARCHY => gen_HIERARCHY_REQUEST_ERR | WRONG_DOC => gen_WRONG_DOCUMENT_ERR
   | INVALID_CHAR => gen_INVALID_CHARACTER_ERR | NO_MOD => gen_NO_MODIFICATION_ALLOWED_ERR
   | NOT_FOUND => gen_NOT_FOUND_ERR | NOT_SUPPORTED => gen_NOT_SUPPORTED_ERR | NAMESPACE => gen_NAMESPACE_ERR
-  | INUSE => gen_INUSE_ATTRIBUTE_ERR
+  | INUSE => gen_INUSE_ATTRIBUTE_ERR | INVALID_ACCESS => gen_INVALID_ACCESS_ERR
   | E_INTERNAL => 99%N
   end.
 
-Record cfg := mkCfg { fix_self : bool; fix_cloneflag : bool }.
-Definition cfg_fixed := mkCfg true true.
-Definition cfg_found := mkCfg false false.
+Record cfg := mkCfg { fix_self : bool; fix_cloneflag : bool;
+  fix_fragdoc : bool;      (* F27 fixes/C13-fragment-into-document.patch *)
+  fix_docel : bool;        (* F28 fixes/C13-replace-self-docelem.patch *)
+  fix_normempty : bool;    (* F29 fixes/C13-normalize-empty-text.patch *)
+  fix_rnname : bool;       (* F30 fixes/C13-rename-name-check.patch *)
+  fix_setattr_id : bool;   (* F36 fixes/C13-setattrnode-idmap.patch *)
+  fix_idnode : bool        (* F37 fixes/C13-setidattrnode-identity.patch *) }.
+Definition cfg_fixed := mkCfg true true true true true true true true.
+Definition cfg_found := mkCfg false false false false false false false false.
 
 (** ---------------------------------------------------------------- the heap *)
 Record node := mkNode {
@@ -58,11 +64,17 @@ Record node := mkNode {
   n_oelem : option id;          (* an Attr: getOwnerElement().  The implementation keeps it in fOwnerNode + OWNED of the Attr;
                                    it is a field of its own here because every other reader of those two on an Attr
                                    (getParentNode) is overridden to ignore them *)
-  n_dead : bool                 (* the node was release()d: its memory is recycled, it is no longer a live node *)
+  n_dead : bool;                (* the node was release()d: its memory is recycled, it is no longer a live node *)
+  n_udata : list (str * (N * bool));   (* the records of DOMDocumentImpl::fUserDataTable whose first key is this node:
+                                          key -> (data, a handler is registered) *)
+  n_hasud : bool;               (* flag USERDATA *)
+  n_isid : bool;                (* an Attr: flag IDATTR *)
+  n_idtab : list (nat * option id);    (* a Document: DOMNodeIDMap::fTable, slot -> Some attr | None = the (DOMAttr* )-1 marker *)
+  n_idnum : nat                 (* a Document: DOMNodeIDMap::fNumEntries *)
 }.
 Definition heap := list node.
 
-Definition dummy : node := mkNode TText [] [] [] 0 None None None false false false 0 None [] false None false.
+Definition dummy : node := mkNode TText [] [] [] 0 None None None false false false 0 None [] false None false [] false false [] 0.
 Definition nd (h : heap) (i : id) : node := nth i h dummy.
 
 Fixpoint upd (h : heap) (i : id) (f : node -> node) : heap :=
@@ -72,18 +84,24 @@ Fixpoint upd (h : heap) (i : id) (f : node -> node) : heap :=
   | x :: r, S j => x :: upd r j f
   end.
 
-Definition set_val v (n : node) := mkNode (n_ty n) (n_name n) v (n_attrs n) (n_owner n) (n_first n) (n_prev n) (n_next n) (n_owned n) (n_isfirst n) (n_ro n) (n_odoc n) (n_docel n) (n_ns n) (n_nsimpl n) (n_oelem n) (n_dead n).
-Definition set_attrs v (n : node) := mkNode (n_ty n) (n_name n) (n_val n) v (n_owner n) (n_first n) (n_prev n) (n_next n) (n_owned n) (n_isfirst n) (n_ro n) (n_odoc n) (n_docel n) (n_ns n) (n_nsimpl n) (n_oelem n) (n_dead n).
-Definition set_owner v (n : node) := mkNode (n_ty n) (n_name n) (n_val n) (n_attrs n) v (n_first n) (n_prev n) (n_next n) (n_owned n) (n_isfirst n) (n_ro n) (n_odoc n) (n_docel n) (n_ns n) (n_nsimpl n) (n_oelem n) (n_dead n).
-Definition set_first v (n : node) := mkNode (n_ty n) (n_name n) (n_val n) (n_attrs n) (n_owner n) v (n_prev n) (n_next n) (n_owned n) (n_isfirst n) (n_ro n) (n_odoc n) (n_docel n) (n_ns n) (n_nsimpl n) (n_oelem n) (n_dead n).
-Definition set_prev v (n : node) := mkNode (n_ty n) (n_name n) (n_val n) (n_attrs n) (n_owner n) (n_first n) v (n_next n) (n_owned n) (n_isfirst n) (n_ro n) (n_odoc n) (n_docel n) (n_ns n) (n_nsimpl n) (n_oelem n) (n_dead n).
-Definition set_next v (n : node) := mkNode (n_ty n) (n_name n) (n_val n) (n_attrs n) (n_owner n) (n_first n) (n_prev n) v (n_owned n) (n_isfirst n) (n_ro n) (n_odoc n) (n_docel n) (n_ns n) (n_nsimpl n) (n_oelem n) (n_dead n).
-Definition set_owned v (n : node) := mkNode (n_ty n) (n_name n) (n_val n) (n_attrs n) (n_owner n) (n_first n) (n_prev n) (n_next n) v (n_isfirst n) (n_ro n) (n_odoc n) (n_docel n) (n_ns n) (n_nsimpl n) (n_oelem n) (n_dead n).
-Definition set_isfirst v (n : node) := mkNode (n_ty n) (n_name n) (n_val n) (n_attrs n) (n_owner n) (n_first n) (n_prev n) (n_next n) (n_owned n) v (n_ro n) (n_odoc n) (n_docel n) (n_ns n) (n_nsimpl n) (n_oelem n) (n_dead n).
-Definition set_docel v (n : node) := mkNode (n_ty n) (n_name n) (n_val n) (n_attrs n) (n_owner n) (n_first n) (n_prev n) (n_next n) (n_owned n) (n_isfirst n) (n_ro n) (n_odoc n) v (n_ns n) (n_nsimpl n) (n_oelem n) (n_dead n).
+Definition set_val v (n : node) := mkNode (n_ty n) (n_name n) v (n_attrs n) (n_owner n) (n_first n) (n_prev n) (n_next n) (n_owned n) (n_isfirst n) (n_ro n) (n_odoc n) (n_docel n) (n_ns n) (n_nsimpl n) (n_oelem n) (n_dead n) (n_udata n) (n_hasud n) (n_isid n) (n_idtab n) (n_idnum n).
+Definition set_attrs v (n : node) := mkNode (n_ty n) (n_name n) (n_val n) v (n_owner n) (n_first n) (n_prev n) (n_next n) (n_owned n) (n_isfirst n) (n_ro n) (n_odoc n) (n_docel n) (n_ns n) (n_nsimpl n) (n_oelem n) (n_dead n) (n_udata n) (n_hasud n) (n_isid n) (n_idtab n) (n_idnum n).
+Definition set_owner v (n : node) := mkNode (n_ty n) (n_name n) (n_val n) (n_attrs n) v (n_first n) (n_prev n) (n_next n) (n_owned n) (n_isfirst n) (n_ro n) (n_odoc n) (n_docel n) (n_ns n) (n_nsimpl n) (n_oelem n) (n_dead n) (n_udata n) (n_hasud n) (n_isid n) (n_idtab n) (n_idnum n).
+Definition set_first v (n : node) := mkNode (n_ty n) (n_name n) (n_val n) (n_attrs n) (n_owner n) v (n_prev n) (n_next n) (n_owned n) (n_isfirst n) (n_ro n) (n_odoc n) (n_docel n) (n_ns n) (n_nsimpl n) (n_oelem n) (n_dead n) (n_udata n) (n_hasud n) (n_isid n) (n_idtab n) (n_idnum n).
+Definition set_prev v (n : node) := mkNode (n_ty n) (n_name n) (n_val n) (n_attrs n) (n_owner n) (n_first n) v (n_next n) (n_owned n) (n_isfirst n) (n_ro n) (n_odoc n) (n_docel n) (n_ns n) (n_nsimpl n) (n_oelem n) (n_dead n) (n_udata n) (n_hasud n) (n_isid n) (n_idtab n) (n_idnum n).
+Definition set_next v (n : node) := mkNode (n_ty n) (n_name n) (n_val n) (n_attrs n) (n_owner n) (n_first n) (n_prev n) v (n_owned n) (n_isfirst n) (n_ro n) (n_odoc n) (n_docel n) (n_ns n) (n_nsimpl n) (n_oelem n) (n_dead n) (n_udata n) (n_hasud n) (n_isid n) (n_idtab n) (n_idnum n).
+Definition set_owned v (n : node) := mkNode (n_ty n) (n_name n) (n_val n) (n_attrs n) (n_owner n) (n_first n) (n_prev n) (n_next n) v (n_isfirst n) (n_ro n) (n_odoc n) (n_docel n) (n_ns n) (n_nsimpl n) (n_oelem n) (n_dead n) (n_udata n) (n_hasud n) (n_isid n) (n_idtab n) (n_idnum n).
+Definition set_isfirst v (n : node) := mkNode (n_ty n) (n_name n) (n_val n) (n_attrs n) (n_owner n) (n_first n) (n_prev n) (n_next n) (n_owned n) v (n_ro n) (n_odoc n) (n_docel n) (n_ns n) (n_nsimpl n) (n_oelem n) (n_dead n) (n_udata n) (n_hasud n) (n_isid n) (n_idtab n) (n_idnum n).
+Definition set_docel v (n : node) := mkNode (n_ty n) (n_name n) (n_val n) (n_attrs n) (n_owner n) (n_first n) (n_prev n) (n_next n) (n_owned n) (n_isfirst n) (n_ro n) (n_odoc n) v (n_ns n) (n_nsimpl n) (n_oelem n) (n_dead n) (n_udata n) (n_hasud n) (n_isid n) (n_idtab n) (n_idnum n).
 
-Definition set_oelem v (n : node) := mkNode (n_ty n) (n_name n) (n_val n) (n_attrs n) (n_owner n) (n_first n) (n_prev n) (n_next n) (n_owned n) (n_isfirst n) (n_ro n) (n_odoc n) (n_docel n) (n_ns n) (n_nsimpl n) v (n_dead n).
-Definition set_dead v (n : node) := mkNode (n_ty n) (n_name n) (n_val n) (n_attrs n) (n_owner n) (n_first n) (n_prev n) (n_next n) (n_owned n) (n_isfirst n) (n_ro n) (n_odoc n) (n_docel n) (n_ns n) (n_nsimpl n) (n_oelem n) v.
+Definition set_oelem v (n : node) := mkNode (n_ty n) (n_name n) (n_val n) (n_attrs n) (n_owner n) (n_first n) (n_prev n) (n_next n) (n_owned n) (n_isfirst n) (n_ro n) (n_odoc n) (n_docel n) (n_ns n) (n_nsimpl n) v (n_dead n) (n_udata n) (n_hasud n) (n_isid n) (n_idtab n) (n_idnum n).
+Definition set_dead v (n : node) := mkNode (n_ty n) (n_name n) (n_val n) (n_attrs n) (n_owner n) (n_first n) (n_prev n) (n_next n) (n_owned n) (n_isfirst n) (n_ro n) (n_odoc n) (n_docel n) (n_ns n) (n_nsimpl n) (n_oelem n) v (n_udata n) (n_hasud n) (n_isid n) (n_idtab n) (n_idnum n).
+
+Definition set_udata v (n : node) := mkNode (n_ty n) (n_name n) (n_val n) (n_attrs n) (n_owner n) (n_first n) (n_prev n) (n_next n) (n_owned n) (n_isfirst n) (n_ro n) (n_odoc n) (n_docel n) (n_ns n) (n_nsimpl n) (n_oelem n) (n_dead n) v (n_hasud n) (n_isid n) (n_idtab n) (n_idnum n).
+Definition set_hasud v (n : node) := mkNode (n_ty n) (n_name n) (n_val n) (n_attrs n) (n_owner n) (n_first n) (n_prev n) (n_next n) (n_owned n) (n_isfirst n) (n_ro n) (n_odoc n) (n_docel n) (n_ns n) (n_nsimpl n) (n_oelem n) (n_dead n) (n_udata n) v (n_isid n) (n_idtab n) (n_idnum n).
+Definition set_isid v (n : node) := mkNode (n_ty n) (n_name n) (n_val n) (n_attrs n) (n_owner n) (n_first n) (n_prev n) (n_next n) (n_owned n) (n_isfirst n) (n_ro n) (n_odoc n) (n_docel n) (n_ns n) (n_nsimpl n) (n_oelem n) (n_dead n) (n_udata n) (n_hasud n) v (n_idtab n) (n_idnum n).
+Definition set_idtab v (n : node) := mkNode (n_ty n) (n_name n) (n_val n) (n_attrs n) (n_owner n) (n_first n) (n_prev n) (n_next n) (n_owned n) (n_isfirst n) (n_ro n) (n_odoc n) (n_docel n) (n_ns n) (n_nsimpl n) (n_oelem n) (n_dead n) (n_udata n) (n_hasud n) (n_isid n) v (n_idnum n).
+Definition set_idnum v (n : node) := mkNode (n_ty n) (n_name n) (n_val n) (n_attrs n) (n_owner n) (n_first n) (n_prev n) (n_next n) (n_owned n) (n_isfirst n) (n_ro n) (n_odoc n) (n_docel n) (n_ns n) (n_nsimpl n) (n_oelem n) (n_dead n) (n_udata n) (n_hasud n) (n_isid n) (n_idtab n) v.
 
 Definition oid_eqb (a b : option id) : bool :=
   match a, b with Some x, Some y => Nat.eqb x y | None, None => true | _, _ => false end.
@@ -276,6 +294,10 @@ Fixpoint ins (fuel : nat) (cf : cfg) (h : heap) (this new : id) (ref : option id
     match n_ty (nd h this) with
     | TDoc =>
       (* DOMDocumentImpl::insertBefore: only one element child permitted *)
+      if fix_fragdoc cf && ntype_eqb (n_ty (nd h new)) TFrag &&
+         (1 <? length (filter (fun k => ntype_eqb (n_ty (nd h k)) TElem) (kids h new)) + (match n_docel (nd h this) with Some _ => 1 | None => 0 end))
+      then (h, RErr HIERARCHY)         (* repaired (F27): a fragment that would bring a second element is refused as a whole *)
+      else
       if ntype_eqb (n_ty (nd h new)) TElem && (match n_docel (nd h this) with Some _ => true | None => false end)
       then (h, RErr HIERARCHY)
       else let (h', r) := pins_body (fun h0 kid => ins fuel' cf h0 this kid ref) cf h this new ref in
@@ -310,7 +332,10 @@ Definition v_replace (cf : cfg) (h : heap) (this new old : id) : heap * result :
     if is_err r1 then (upd h1 this (set_docel saved), r1)
     else
       let (h2, r2) := if old_is_elem then p_remove h1 this old else v_remove h1 this old in
-      if is_err r2 then (upd h2 this (set_docel saved), r2) else (h2, r2)
+      if is_err r2 then (upd h2 this (set_docel saved), r2)
+      else if fix_docel cf && old_is_elem && oid_eqb (n_docel (nd h2 this)) (Some old)
+           then (upd h2 this (set_docel None), r2)             (* repaired (F28): replaceChild(x, x) *)
+           else (h2, r2)
   | TElem | TFrag | TERef | TAttr => p_replace cf h this new old
   | _ => (h, RErr HIERARCHY)         (* DOMNodeImpl::replaceChild *)
   end.
@@ -352,7 +377,7 @@ Definition cd_substring (h : heap) (n : id) (off cnt : N) : heap * result :=
 (** ---------------------------------------------------------------- node creation *)
 Definition alloc (h : heap) (x : node) : heap * id := (h ++ [x], length h).
 Definition fresh (t : ntype) (doc : id) (nm v : str) (ro : bool) : node :=
-  mkNode t nm v [] doc None None None false false ro doc None [] false None false.
+  mkNode t nm v [] doc None None None false false ro doc None [] false None false [] false false [] 0.
 
 Definition create (h : heap) (doc : id) (t : ntype) (nm v : str) : heap * result :=
   match n_ty (nd h doc) with
@@ -393,7 +418,7 @@ Definition split_text (cf : cfg) (h : heap) (n : id) (offN : N) : heap * result 
 
 (** ---------------------------------------------------------------- normalize *)
 (** DOMParentNode::normalize; [kid] is the loop variable *)
-Fixpoint norm (fuel : nat) (h : heap) (this : id) (kid : option id) : heap * result :=
+Fixpoint norm (fuel : nat) (cf : cfg) (h : heap) (this : id) (kid : option id) : heap * result :=
   match fuel with
   | O => (h, RErr E_INTERNAL)
   | S f =>
@@ -407,22 +432,96 @@ Fixpoint norm (fuel : nat) (h : heap) (this : id) (kid : option id) : heap * res
           let (h1, r1) := cd_append h k (n_val (nd h nx)) in
           if is_err r1 then (h1, r1)
           else let (h2, r2) := p_remove h1 this nx in
-               if is_err r2 then (h2, r2) else norm f h2 this (Some k)
+               if is_err r2 then (h2, r2) else norm f cf h2 this (Some k)
+        else if fix_normempty cf && ntype_eqb (n_ty (nd h k)) TText && match n_val (nd h k) with [] => true | _ => false end then
+          let (h1, r1) := p_remove h this k in                       (* repaired (F29): an empty Text node is removed *)
+          if is_err r1 then (h1, r1) else norm f cf h1 this next
         else if ntype_eqb (n_ty (nd h k)) TElem then
-          let (h1, r1) := norm f h k (n_first (nd h k)) in
-          if is_err r1 then (h1, r1) else norm f h1 this next
-        else norm f h this next
+          let (h1, r1) := norm f cf h k (n_first (nd h k)) in
+          if is_err r1 then (h1, r1) else norm f cf h1 this next
+        else norm f cf h this next
       | None =>
+        if fix_normempty cf && ntype_eqb (n_ty (nd h k)) TText && match n_val (nd h k) with [] => true | _ => false end then
+          let (h1, r1) := p_remove h this k in
+          if is_err r1 then (h1, r1) else norm f cf h1 this next
+        else
         if ntype_eqb (n_ty (nd h k)) TElem then
-          let (h1, r1) := norm f h k (n_first (nd h k)) in
-          if is_err r1 then (h1, r1) else norm f h1 this next
-        else norm f h this next
+          let (h1, r1) := norm f cf h k (n_first (nd h k)) in
+          if is_err r1 then (h1, r1) else norm f cf h1 this next
+        else norm f cf h this next
       end
     end
   end.
-Definition normalize (h : heap) (n : id) : heap * result :=
+Definition normalize (cf : cfg) (h : heap) (n : id) : heap * result :=
   if is_leaf (n_ty (nd h n)) then (h, ROk)          (* DOMNodeImpl::normalize does nothing *)
-  else norm (2 * length h + 2) h n (n_first (nd h n)).
+  else norm (2 * length h + 2) cf h n (n_first (nd h n)).
+
+(** DOMAttrImpl::getValue *)
+Definition attr_value (h : heap) (a : id) : str :=
+  flat_map (fun k => match n_ty (nd h k) with TText => n_val (nd h k) | _ => [] end) (kids h a).
+
+(** ---------------------------------------------------------------- DOMNodeIDMap (per document) *)
+(** XMLString::hash on 64-bit XMLSize_t; multiplier and shift regenerated from XMLString.hpp (Gen/GenC14IdMap.v) *)
+Definition w64m (x : N) : N := N.modulo x 18446744073709551616%N.
+Fixpoint xhash_go (hv : N) (s : str) : N :=
+  match s with [] => hv | c :: r => xhash_go (w64m (hv * xhash_mult + N.shiftr hv xhash_shift + c)%N) r end.
+Definition xhash (s : str) (modulus : N) : N := match s with [] => 0%N | c :: r => N.modulo (xhash_go c r) modulus end.
+(** the table has its initial size (gPrimes[0]); growth at fMaxEntries additions is NOT modelled *)
+Definition id_size : nat := match idmap_sizes with (s, _) :: _ => N.to_nat s | [] => 997 end.
+Definition id_h0 (v : str) : nat := S (N.to_nat (xhash v (N.of_nat (id_size - 1)))).
+Definition id_step (h0 cur : nat) : nat := let c := cur + h0 in if id_size <=? c then Nat.modulo c id_size else c.
+Fixpoint tab_get (t : list (nat * option id)) (k : nat) : option (option id) :=
+  match t with [] => None | (j, v) :: r => if Nat.eqb j k then Some v else tab_get r k end.
+Definition tab_set (t : list (nat * option id)) (k : nat) (v : option id) : list (nat * option id) :=
+  (k, v) :: filter (fun p => negb (Nat.eqb (fst p) k)) t.
+
+(** add(): first slot of the probe sequence that is empty or marked deleted *)
+Fixpoint id_probe_free (t : list (nat * option id)) (h0 : nat) (fuel cur : nat) : nat :=
+  match fuel with
+  | O => cur
+  | S f => match tab_get t cur with Some (Some _) => id_probe_free t h0 f (id_step h0 cur) | _ => cur end
+  end.
+Definition id_add (h : heap) (a : id) : heap :=
+  let d := n_odoc (nd h a) in
+  let h0 := id_h0 (attr_value h a) in
+  let t := n_idtab (nd h d) in
+  upd (upd h d (set_idnum (S (n_idnum (nd h d))))) d (set_idtab (tab_set t (id_probe_free t h0 id_size h0) (Some a))).
+(** remove(attr): the slot holding THIS attribute (identity) gets the deleted marker *)
+Fixpoint id_probe_attr (t : list (nat * option id)) (h0 : nat) (a : id) (fuel cur : nat) : option nat :=
+  match fuel with
+  | O => None
+  | S f => match tab_get t cur with
+           | None => None
+           | Some (Some b) => if Nat.eqb b a then Some cur else id_probe_attr t h0 a f (id_step h0 cur)
+           | Some None => id_probe_attr t h0 a f (id_step h0 cur)
+           end
+  end.
+Definition id_remove (h : heap) (a : id) : heap :=
+  let d := n_odoc (nd h a) in
+  let h0 := id_h0 (attr_value h a) in
+  let t := n_idtab (nd h d) in
+  match id_probe_attr t h0 a id_size h0 with
+  | Some k => upd h d (set_idtab (tab_set t k None))
+  | None => h
+  end.
+(** find(id): the first attribute on the probe sequence whose CURRENT value equals id *)
+Fixpoint id_probe_val (h : heap) (t : list (nat * option id)) (h0 : nat) (v : str) (fuel cur : nat) : option id :=
+  match fuel with
+  | O => None
+  | S f => match tab_get t cur with
+           | None => None
+           | Some (Some b) => if str_eqb (attr_value h b) v then Some b else id_probe_val h t h0 v f (id_step h0 cur)
+           | Some None => id_probe_val h t h0 v f (id_step h0 cur)
+           end
+  end.
+Definition id_find (h : heap) (d : id) (v : str) : option id :=
+  id_probe_val h (n_idtab (nd h d)) (id_h0 v) v id_size (id_h0 v).
+
+(** DOMAttrImpl::addAttrToIDNodeMap / removeAttrFromIDNodeMap *)
+Definition attr_id_on (h : heap) (a : id) : heap :=
+  if n_isid (nd h a) then h else id_add (upd h a (set_isid true)) a.
+Definition attr_id_off (h : heap) (a : id) : heap :=
+  if n_isid (nd h a) then upd (id_remove h a) a (set_isid false) else h.
 
 (** ---------------------------------------------------------------- cloneNode *)
 (** copy constructors: DOMNodeImpl(other) copies the flags (clearing READONLY and OWNED) for the leaf types and
@@ -432,14 +531,14 @@ Definition clone_shallow (cf : cfg) (h : heap) (n : id) : node :=
   let doc := match pub_odoc h n with Some d => d | None => n end in
   let copied_first := if fix_cloneflag cf then false else n_isfirst x in
   match n_ty x with
-  | TElem => mkNode TElem (n_name x) [] [] doc None None None false false false doc None (n_ns x) (n_nsimpl x) None false
-  | TAttr => mkNode TAttr (n_name x) [] [] doc None None None false copied_first false doc None (n_ns x) (n_nsimpl x) None false
-  | TFrag => mkNode TFrag [] [] [] doc None None None false false false doc None [] false None false
-  | TERef => mkNode TERef (n_name x) [] [] doc None None None false copied_first true doc None [] false None false
-  | t => mkNode t (n_name x) (n_val x) [] doc None None None false copied_first false doc None [] false None false
+  | TElem => mkNode TElem (n_name x) [] [] doc None None None false false false doc None (n_ns x) (n_nsimpl x) None false [] false false [] 0
+  | TAttr => mkNode TAttr (n_name x) [] [] doc None None None false copied_first false doc None (n_ns x) (n_nsimpl x) None false [] (n_hasud x) (n_isid x) [] 0
+  | TFrag => mkNode TFrag [] [] [] doc None None None false false false doc None [] false None false [] false false [] 0
+  | TERef => mkNode TERef (n_name x) [] [] doc None None None false copied_first true doc None [] false None false [] (n_hasud x) false [] 0
+  | t => mkNode t (n_name x) (n_val x) [] doc None None None false copied_first false doc None [] false None false [] (n_hasud x) false [] 0
   end.
 
-Definition set_ro v (n : node) := mkNode (n_ty n) (n_name n) (n_val n) (n_attrs n) (n_owner n) (n_first n) (n_prev n) (n_next n) (n_owned n) (n_isfirst n) v (n_odoc n) (n_docel n) (n_ns n) (n_nsimpl n) (n_oelem n) (n_dead n).
+Definition set_ro v (n : node) := mkNode (n_ty n) (n_name n) (n_val n) (n_attrs n) (n_owner n) (n_first n) (n_prev n) (n_next n) (n_owned n) (n_isfirst n) v (n_odoc n) (n_docel n) (n_ns n) (n_nsimpl n) (n_oelem n) (n_dead n) (n_udata n) (n_hasud n) (n_isid n) (n_idtab n) (n_idnum n).
 
 (** cloneChildren: for (mykid = other->getFirstChild(); mykid; mykid = mykid->getNextSibling())
                       appendChild(mykid->cloneNode(true))            -- DOMParentNode::appendChild;
@@ -482,6 +581,8 @@ Fixpoint clone (fuel : nat) (cf : cfg) (h : heap) (n : id) (deep : bool) : heap 
     else
     let (h1, c) := alloc h (clone_shallow cf h n) in
     let t := n_ty (nd h n) in
+    (* the DOMAttrImpl copy constructor puts the copy of an ID attribute into the ID map at once (it has no value yet) *)
+    let h1 := if ntype_eqb t TAttr && n_isid (nd h n) then id_add h1 c else h1 in
     let res :=
     if (deep || ntype_eqb t TAttr) && negb (is_leaf t) then      (* the DOMAttrImpl copy constructor always clones the children *)
         (* an EntityReference clone is made read-only after its children were cloned: setReadOnly(true,true) *)
@@ -530,18 +631,22 @@ Fixpoint amap_put (h : heap) (l : list id) (a : id) : list id :=
 Fixpoint amap_del (l : list id) (a : id) : list id :=
   match l with [] => [] | b :: r => if Nat.eqb b a then r else b :: amap_del r a end.
 
-(** release(): the node and everything under it is handed back to the document's allocator *)
+(** release(): the node and everything under it (children; for an element also its attributes) is handed back to the
+    document's allocator; callUserDataHandlers(NODE_DELETED) removes the node's user-data records *)
+Definition set_released (n : node) : node := set_hasud false (set_udata [] (set_dead true n)).
 Fixpoint kill (fuel : nat) (h : heap) (n : id) : heap :=
   match fuel with
   | O => h
-  | S f => fold_left (kill f) (kids h n) (upd h n (set_dead true))
+  | S f => fold_left (kill f) (kids h n ++ n_attrs (nd h n)) (upd h n set_released)
+  end.
+Fixpoint subtree (fuel : nat) (h : heap) (n : id) : list id :=
+  match fuel with
+  | O => [n]
+  | S f => n :: flat_map (subtree f h) (kids h n ++ n_attrs (nd h n))
   end.
 
-(** DOMAttrImpl::getValue *)
-Definition attr_value (h : heap) (a : id) : str :=
-  flat_map (fun k => match n_ty (nd h k) with TText => n_val (nd h k) | _ => [] end) (kids h a).
-
-(** DOMAttrImpl::setValue: remove and release the children, append a new Text node *)
+(** DOMAttrImpl::setValue: an ID attribute leaves the ID map and re-enters it under the new value; the children are
+    removed and released, a new Text node is appended *)
 Fixpoint drop_kids (k : nat) (h : heap) (a : id) : heap :=
   match k with
   | O => h
@@ -552,12 +657,14 @@ Fixpoint drop_kids (k : nat) (h : heap) (a : id) : heap :=
   end.
 Definition attr_set_value (h : heap) (a : id) (v : str) : heap * result :=
   if n_ro (nd h a) then (h, RErr NO_MOD)
-  else let h1 := drop_kids (S (length h)) h a in
+  else let h0 := if n_isid (nd h a) then id_remove h a else h in
+       let h1 := drop_kids (S (length h0)) h0 a in
        let (h2, t) := alloc h1 (fresh TText (n_odoc (nd h a)) [] v false) in
-       (link_insert h2 a t None, ROk).                        (* appendChildFast *)
+       let h3 := link_insert h2 a t None in                    (* appendChildFast *)
+       (if n_isid (nd h a) then id_add h3 a else h3, ROk).
 
 (** DOMAttrMapImpl::setNamedItem *)
-Definition amap_set (h : heap) (e a : id) : heap * result :=
+Definition amap_set (cf : cfg) (h : heap) (e a : id) : heap * result :=
   if negb (oid_eqb (pub_odoc h a) (Some (n_odoc (nd h e)))) then (h, RErr WRONG_DOC)
   else if n_ro (nd h e) then (h, RErr NO_MOD)
   else if match n_oelem (nd h a) with Some o => negb (Nat.eqb o e) | None => false end then (h, RErr INUSE)
@@ -567,12 +674,12 @@ Definition amap_set (h : heap) (e a : id) : heap * result :=
     let h2 := upd h1 e (set_attrs (amap_put h1 (n_attrs (nd h1 e)) a)) in
     match prev with
     | Some p => if Nat.eqb p a then (h2, RNode a)              (* repaired (F33): as found, the owner of a was cleared here too *)
-                else (upd h2 p (set_oelem None), RNode p)
+                else ((if fix_setattr_id cf then attr_id_off (upd h2 p (set_oelem None)) p else upd h2 p (set_oelem None)), RNode p)   (* repaired (F36) *)
     | None => (h2, ROk)
     end.
 
-Definition set_attribute_node (h : heap) (e a : id) : heap * result :=
-  if n_ro (nd h e) then (h, RErr NO_MOD) else amap_set h e a.
+Definition set_attribute_node (cf : cfg) (h : heap) (e a : id) : heap * result :=
+  if n_ro (nd h e) then (h, RErr NO_MOD) else amap_set cf h e a.
 
 Definition remove_attribute_node (h : heap) (e a : id) : heap * result :=
   if n_ro (nd h e) then (h, RErr NO_MOD)
@@ -581,19 +688,19 @@ Definition remove_attribute_node (h : heap) (e a : id) : heap * result :=
                  else amap_find h (n_attrs (nd h e)) (n_name (nd h a)) in
     match found with
     | Some f => if Nat.eqb f a                                 (* "if it is in fact the right object" *)
-                then (upd (upd h e (set_attrs (amap_del (n_attrs (nd h e)) a))) a (set_oelem None), RNode a)
+                then (attr_id_off (upd (upd h e (set_attrs (amap_del (n_attrs (nd h e)) a))) a (set_oelem None)) a, RNode a)
                 else (h, RErr NOT_FOUND)
     | None => (h, RErr NOT_FOUND)
     end.
 
-Definition set_attribute (h : heap) (e : id) (nm v : str) : heap * result :=
+Definition set_attribute (cf : cfg) (h : heap) (e : id) (nm v : str) : heap * result :=
   if n_ro (nd h e) then (h, RErr NO_MOD)
   else match amap_find h (n_attrs (nd h e)) nm with
        | Some a => attr_set_value h a v
        | None =>
          if valid_name nm then
            let (h1, a) := alloc h (fresh TAttr (n_odoc (nd h e)) nm [] false) in
-           let (h2, r2) := amap_set h1 e a in
+           let (h2, r2) := amap_set cf h1 e a in
            if is_err r2 then (h2, r2) else attr_set_value h2 a v
          else (h, RErr INVALID_CHAR)           (* createAttribute *)
        end.
@@ -602,7 +709,7 @@ Definition remove_attribute (h : heap) (e : id) (nm : str) : heap * result :=
   else match amap_find h (n_attrs (nd h e)) nm with
        | Some a =>
          let h1 := upd (upd h e (set_attrs (amap_del (n_attrs (nd h e)) a))) a (set_oelem None) in
-         (kill (length h) h1 a, ROk)                             (* att->release() *)
+         (kill (length h) (attr_id_off h1 a) a, ROk)              (* removeAttrFromIDNodeMap(); att->release() *)
        | None => (h, ROk)
        end.
 Definition get_attribute (h : heap) (e : id) (nm : str) : heap * result :=
@@ -610,9 +717,67 @@ Definition get_attribute (h : heap) (e : id) (nm : str) : heap * result :=
 Definition get_attribute_node (h : heap) (e : id) (nm : str) : heap * result :=
   (h, match amap_find h (n_attrs (nd h e)) nm with Some a => RNode a | None => ROk end).
 
+(** ---------------------------------------------------------------- ID attributes, getElementById *)
+Definition set_id_attribute (h : heap) (e : id) (nm : str) (isid : bool) : heap * result :=
+  if n_ro (nd h e) then (h, RErr NO_MOD)
+  else match amap_find h (n_attrs (nd h e)) nm with
+       | None => (h, RErr NOT_FOUND)
+       | Some a => (if isid then attr_id_on h a else attr_id_off h a, ROk)
+       end.
+(** setIdAttributeNode looks the attribute up by the NAME of the node passed in *)
+Definition set_id_attribute_node (cf : cfg) (h : heap) (e a : id) (isid : bool) : heap * result :=
+  if n_ro (nd h e) then (h, RErr NO_MOD)
+  else
+    let found := if n_nsimpl (nd h a) then amap_find_ns h (n_attrs (nd h e)) (n_ns (nd h a)) (local_name (n_name (nd h a)))
+                 else amap_find h (n_attrs (nd h e)) (n_name (nd h a)) in
+    match found with
+    | None => (h, RErr NOT_FOUND)
+    | Some f => if fix_idnode cf && negb (Nat.eqb f a) then (h, RErr NOT_FOUND)      (* repaired (F37): it must be THAT node *)
+                else (if isid then attr_id_on h f else attr_id_off h f, ROk)
+    end.
+Definition get_element_by_id (h : heap) (d : id) (v : str) : heap * result :=
+  (h, match id_find h d v with
+      | Some a => match n_oelem (nd h a) with Some e => RNode e | None => ROk end
+      | None => ROk
+      end).
+
+(** ---------------------------------------------------------------- user data *)
+Fixpoint ud_get (l : list (str * (N * bool))) (k : str) : option (N * bool) :=
+  match l with [] => None | (j, v) :: r => if str_eqb j k then Some v else ud_get r k end.
+Definition ud_del (l : list (str * (N * bool))) (k : str) := filter (fun p => negb (str_eqb (fst p) k)) l.
+(** DOMNodeImpl::setUserData + DOMDocumentImpl::setUserData; data 0 = null: the record is removed *)
+Definition set_user_data (h : heap) (n : id) (key : str) (data : N) (handler : bool) : heap * result :=
+  if N.eqb data 0 && negb (n_hasud (nd h n)) then (h, RData 0)
+  else
+    let l := n_udata (nd h n) in
+    let old := match ud_get l key with Some (d, _) => d | None => 0%N end in
+    let l1 := ud_del l key in
+    if N.eqb data 0 then
+      (upd (upd h n (set_udata l1)) n (set_hasud (match l1 with [] => false | _ => true end)), RData old)
+    else (upd (upd h n (set_udata ((key, (data, handler)) :: l1))) n (set_hasud true), RData old).
+Definition get_user_data (h : heap) (n : id) (key : str) : heap * result :=
+  (h, RData (if n_hasud (nd h n) then match ud_get (n_udata (nd h n)) key with Some (d, _) => d | None => 0%N end else 0%N)).
+
+(** ---------------------------------------------------------------- release() *)
+(** DOMNode::release() of a node: INVALID_ACCESS_ERR when it has a parent / an owner element; otherwise the whole
+    subtree is released.  As found (F35) the ID attributes in the subtree stay in the ID map as dangling pointers;
+    [force = false]: such a release is not performed (skip, on both sides of the correspondence);
+    [force = true]: the repaired behaviour -- every ID attribute is taken out of the ID map first. *)
+Definition has_registered_id (h : heap) (n : id) : bool :=
+  existsb (fun x => n_isid (nd h x)) (subtree (length h) h n).
+Definition release_node (h : heap) (n : id) (force : bool) : heap * result :=
+  match n_ty (nd h n) with
+  | TDoc => (h, RSkip)
+  | _ =>
+    if (match parent h n with Some _ => true | None => false end) || (match n_oelem (nd h n) with Some _ => true | None => false end)
+    then (h, RErr INVALID_ACCESS)
+    else if negb force && has_registered_id h n then (h, RSkip)
+    else (kill (length h) (fold_left attr_id_off (subtree (length h) h n) h) n, ROk)
+  end.
+
 (** ---------------------------------------------------------------- renameNode *)
-Definition set_name v (n : node) := mkNode (n_ty n) v (n_val n) (n_attrs n) (n_owner n) (n_first n) (n_prev n) (n_next n) (n_owned n) (n_isfirst n) (n_ro n) (n_odoc n) (n_docel n) (n_ns n) (n_nsimpl n) (n_oelem n) (n_dead n).
-Definition set_ns v (n : node) := mkNode (n_ty n) (n_name n) (n_val n) (n_attrs n) (n_owner n) (n_first n) (n_prev n) (n_next n) (n_owned n) (n_isfirst n) (n_ro n) (n_odoc n) (n_docel n) v (n_nsimpl n) (n_oelem n) (n_dead n).
+Definition set_name v (n : node) := mkNode (n_ty n) v (n_val n) (n_attrs n) (n_owner n) (n_first n) (n_prev n) (n_next n) (n_owned n) (n_isfirst n) (n_ro n) (n_odoc n) (n_docel n) (n_ns n) (n_nsimpl n) (n_oelem n) (n_dead n) (n_udata n) (n_hasud n) (n_isid n) (n_idtab n) (n_idnum n).
+Definition set_ns v (n : node) := mkNode (n_ty n) (n_name n) (n_val n) (n_attrs n) (n_owner n) (n_first n) (n_prev n) (n_next n) (n_owned n) (n_isfirst n) (n_ro n) (n_odoc n) (n_docel n) v (n_nsimpl n) (n_oelem n) (n_dead n) (n_udata n) (n_hasud n) (n_isid n) (n_idtab n) (n_idnum n).
 
 (** while (child = getFirstChild()) { removeChild(child); newNode->appendChild(child); } *)
 Fixpoint rename_move (k : nat) (cf : cfg) (h : heap) (old new : id) : heap * result :=
@@ -653,7 +818,10 @@ Definition rename_core (cf : cfg) (h : heap) (doc n : id) (ns nm : str) : heap *
         else match ns_bind is_attr ns nm with
              | None => (h, RErr NAMESPACE)
              | Some uri =>
-               let (h1, ne) := alloc h (mkNode (n_ty x) nm [] [] doc None None None false false false doc None uri true None false) in
+               let (h1, ne) := alloc h (mkNode (n_ty x) nm [] [] doc None None None false false false doc None uri true None false [] false false [] 0) in
+               (* doc->transferUserData(this, newNode) *)
+               let h1 := upd (upd h1 ne (set_udata (n_udata (nd h1 n)))) ne (set_hasud true) in
+               let h1 := upd (upd h1 n (set_udata [])) n (set_hasud false) in
                let par := if is_attr then None else parent h1 n in
                let nxt := next_sib h1 n in
                let (h2, r2) := match par with Some p => v_remove h1 p n | None => (h1, ROk) end in
@@ -673,13 +841,15 @@ Definition rename_core (cf : cfg) (h : heap) (doc n : id) (ns nm : str) : heap *
     renamed, and put back (el->setAttributeNode(NS)); an exception raised in between leaves it detached *)
 Definition rename_node (cf : cfg) (h : heap) (doc n : id) (ns nm : str) : heap * result :=
   if negb (oid_eqb (pub_odoc h n) (Some doc)) then (h, RErr WRONG_DOC)
+  else if fix_rnname cf && (ntype_eqb (n_ty (nd h n)) TElem || ntype_eqb (n_ty (nd h n)) TAttr) && negb (valid_name nm)
+       then (h, RErr INVALID_CHAR)                  (* repaired (F30): the new name is checked before anything happens *)
   else match (if ntype_eqb (n_ty (nd h n)) TAttr then n_oelem (nd h n) else None) with
        | Some el =>
          let (h1, r1) := remove_attribute_node h el n in
          if is_err r1 then (h1, r1)
          else let (h2, r2) := rename_core cf h1 doc n ns nm in
               match r2 with
-              | RNode m => (fst (set_attribute_node h2 el m), RNode m)
+              | RNode m => (fst (set_attribute_node cf h2 el m), RNode m)
               | _ => (h2, r2)
               end
        | None => rename_core cf h doc n ns nm
@@ -698,7 +868,7 @@ Definition step_cfg (cf : cfg) (h : heap) (o : op) : heap * result :=
   | ORemove p c => if valid h p && valid h c then v_remove h p c else (h, RSkip)
   | OReplace p n o => if valid h p && valid h n && valid h o then v_replace cf h p n o else (h, RSkip)
   | OClone n deep => if valid h n then clone_node cf h n deep else (h, RSkip)
-  | ONormalize n => if valid h n then normalize h n else (h, RSkip)
+  | ONormalize n => if valid h n then normalize cf h n else (h, RSkip)
   | OSetData n s => if valid h n && is_leaf (n_ty (nd h n)) then cd_set h n s
                     else if valid h n && ntype_eqb (n_ty (nd h n)) TAttr then attr_set_value h n s else (h, RSkip)
   | OAppendData n s => if valid h n && is_chardata (n_ty (nd h n)) then cd_append h n s else (h, RSkip)
@@ -709,14 +879,21 @@ Definition step_cfg (cf : cfg) (h : heap) (o : op) : heap * result :=
   | OSplitText n off =>
     if valid h n && (ntype_eqb (n_ty (nd h n)) TText || ntype_eqb (n_ty (nd h n)) TCData) then split_text cf h n off
     else (h, RSkip)
-  | OSetAttr e nm v => if valid h e && ntype_eqb (n_ty (nd h e)) TElem then set_attribute h e nm v else (h, RSkip)
+  | OSetAttr e nm v => if valid h e && ntype_eqb (n_ty (nd h e)) TElem then set_attribute cf h e nm v else (h, RSkip)
   | ORemoveAttr e nm => if valid h e && ntype_eqb (n_ty (nd h e)) TElem then remove_attribute h e nm else (h, RSkip)
   | OGetAttr e nm => if valid h e && ntype_eqb (n_ty (nd h e)) TElem then get_attribute h e nm else (h, RSkip)
   | OSetAttrNode e a =>
-    if valid h e && valid h a && ntype_eqb (n_ty (nd h e)) TElem && ntype_eqb (n_ty (nd h a)) TAttr then set_attribute_node h e a else (h, RSkip)
+    if valid h e && valid h a && ntype_eqb (n_ty (nd h e)) TElem && ntype_eqb (n_ty (nd h a)) TAttr then set_attribute_node cf h e a else (h, RSkip)
   | ORemoveAttrNode e a =>
     if valid h e && valid h a && ntype_eqb (n_ty (nd h e)) TElem && ntype_eqb (n_ty (nd h a)) TAttr then remove_attribute_node h e a else (h, RSkip)
   | OGetAttrNode e nm => if valid h e && ntype_eqb (n_ty (nd h e)) TElem then get_attribute_node h e nm else (h, RSkip)
+  | OSetUserData n key data hd => if valid h n then set_user_data h n key data hd else (h, RSkip)
+  | OGetUserData n key => if valid h n then get_user_data h n key else (h, RSkip)
+  | ORelease n force => if valid h n then release_node h n force else (h, RSkip)
+  | OSetIdAttr e nm b => if valid h e && ntype_eqb (n_ty (nd h e)) TElem then set_id_attribute h e nm b else (h, RSkip)
+  | OSetIdAttrNode e a b =>
+    if valid h e && valid h a && ntype_eqb (n_ty (nd h e)) TElem && ntype_eqb (n_ty (nd h a)) TAttr then set_id_attribute_node cf h e a b else (h, RSkip)
+  | OGetById d v => if valid h d && ntype_eqb (n_ty (nd h d)) TDoc then get_element_by_id h d v else (h, RSkip)
   | ORename d n ns nm =>
     if valid h d && valid h n && ntype_eqb (n_ty (nd h d)) TDoc then rename_node cf h d n ns nm else (h, RSkip)
   end.
@@ -732,5 +909,5 @@ Fixpoint run_cfg (cf : cfg) (h : heap) (l : list op) : heap * list result :=
   end.
 
 (** initial heap of a request: [n] empty documents, DOMImplementation::createDocument() *)
-Definition doc_node (i : id) : node := mkNode TDoc [] [] [] i None None None false false false i None [] false None false.
+Definition doc_node (i : id) : node := mkNode TDoc [] [] [] i None None None false false false i None [] false None false [] false false [] 0.
 Definition init_heap (n : nat) : heap := map doc_node (seq 0 n).
